@@ -21,7 +21,9 @@ void harness::run_case(const eng::Raw& raw, eng::Ctx& ctx)
 	// 0 built in one go; 1 a copy of an initialised object whose original is gone; 2 a copy taken before init();
 	// 3 built in two phases around a first init() (later edges only use labels the first phase knew);
 	// 4 as 3, but the object starts with 0 states and grows with the edges (so the state count is the largest index + 1)
-	const unsigned protocol = (h[6] / 8) % 8 < 5 ? (h[6] / 8) % 8 : 0;
+	// 5 an object that held ANOTHER system before (at least as many states, every label), was initialised (and possibly
+	//   asked), then clear()ed and filled with this one: after clear() it behaves like a fresh ExplicitLTS(0)
+	const unsigned protocol = (h[6] / 8) % 8 < 6 ? (h[6] / 8) % 8 : 0;
 
 	// edges
 	std::vector<std::array<size_t,3>> edges;
@@ -40,7 +42,7 @@ void harness::run_case(const eng::Raw& raw, eng::Ctx& ctx)
 		std::array<size_t,3> e{(r[1] + (large ? r[4] * 7 : 0)) % n, r[2] % nl, (r[3] + (large ? r[5] * 11 : 0)) % n};
 		if (edgeSet.insert(e).second || allowDuplicateEdges) edges.push_back(e);
 	}
-	if (protocol == 4 && !edges.empty()) {
+	if ((protocol == 4 || protocol == 5) && !edges.empty()) {
 		size_t top = 0;
 		for (auto& e : edges) top = std::max(top, std::max(e[0], e[2]));
 		n = top + 1;
@@ -76,7 +78,8 @@ void harness::run_case(const eng::Raw& raw, eng::Ctx& ctx)
 	{
 		std::ostringstream d;
 		static const char* const protoName[] = {"built in one go", "copy of an initialised object, original destroyed", "copy taken before init()",
-			"two phases around a first init()", "two phases, object grows from 0 states"};
+			"two phases around a first init()", "two phases, object grows from 0 states",
+			"re-used after clear(): held the reversed system on more states before"};
 		d << "states " << n << " labels " << nl << " output-size " << outSize << (allowDuplicateEdges ? " (duplicate edges kept)" : "") <<
 			"\nobject: " << protoName[protocol] << ((protocol == 3 || protocol == 4) ? " (first " + std::to_string(phase1) + " edges before it)" : std::string()) << "\nedges:";
 		size_t shown = 0;
@@ -119,6 +122,7 @@ void harness::run_case(const eng::Raw& raw, eng::Ctx& ctx)
 	if (large) ctx.tag("large:65-220-states");
 	if (protocol == 1 || protocol == 2) ctx.tag("object:copy");
 	if (protocol == 3 || protocol == 4) ctx.tag("object:two-phase");
+	if (protocol == 5) ctx.tag("object:reused-after-clear");
 	if (withPartition) ctx.tag("with-partition");
 	if (outSize < n) ctx.tag("restricted-output");
 	if (refined) ctx.tag("needed-refinement");
@@ -126,7 +130,15 @@ void harness::run_case(const eng::Raw& raw, eng::Ctx& ctx)
 	VATA::Util::BinaryRelation result;
 	{
 		eng::LibSection ls(ctx, "lts:computeSimulation");
-		std::unique_ptr<VATA::ExplicitLTS> obj(new VATA::ExplicitLTS((protocol == 4 && !edges.empty()) ? 0 : n));
+		std::unique_ptr<VATA::ExplicitLTS> obj(new VATA::ExplicitLTS(((protocol == 4 || protocol == 5) && !edges.empty()) ? 0 : n));
+		if (protocol == 5 && !edges.empty()) {
+			const size_t n1 = n + h[2] % 3;
+			for (auto& e : edges) obj->addTransition(e[2], e[1], e[0]);
+			obj->addTransition(n1 - 1, nl - 1, 0);
+			obj->init();
+			if (h[5] % 2) (void)obj->computeSimulation();
+			obj->clear();
+		}
 		for (size_t i = 0; i < phase1; ++i) obj->addTransition(edges[i][0], edges[i][1], edges[i][2]);
 		if (protocol == 2) { std::unique_ptr<VATA::ExplicitLTS> cp(new VATA::ExplicitLTS(*obj)); obj = std::move(cp); }
 		obj->init();
